@@ -58,6 +58,9 @@ def hex_specs(n):
         spec('shr_hex', 'hex.shr_hex {n}, a', [ft], lambda v: ({'a': v['a'] >> 4}, ft), A, 'dst[:n] >>= 4')
         spec('shl_hex_t', 'hex.shl_hex {n}, 1, a', [ft], lambda v: ({'a': (v['a'] << 4) & m}, ft), A, 'dst[:n] <<= 4*times')
         spec('shr_hex_t', 'hex.shr_hex {n}, 1, a', [ft], lambda v: ({'a': v['a'] >> 4}, ft), A, 'dst[:n] >>= 4*times')
+        for t in (0, n - 1, n):
+            spec(f'shl_hex_t{t}', f'hex.shl_hex {{n}}, {t}, a', [ft], lambda v, t=t: ({'a': (v['a'] << (4 * t)) & m}, ft), A, 'dst[:n] <<= 4*times')
+            spec(f'shr_hex_t{t}', f'hex.shr_hex {{n}}, {t}, a', [ft], lambda v, t=t: ({'a': v['a'] >> (4 * t)}, ft), A, 'dst[:n] >>= 4*times')
         spec('sign_extend', 'hex.sign_extend {n}, 1, a', [ft], lambda v: ({'a': sgn(v['a'] & 0xf, 4) & m}, ft), A,
              'sign-extends hex[:signed_n] into hex[:full_n]')
     spec('inc', 'hex.inc {n}, a', [ft], lambda v: ({'a': (v['a'] + 1) & m}, ft), A, 'hex[:n]++')
@@ -186,6 +189,13 @@ def bit_specs(n):
         spec('shr2', 'bit.shr {n}, 2, a', [ft], lambda v: ({'a': v['a'] >> 2}, ft), A, 'x[:n] >>= times')
         spec('shra2', 'bit.shra {n}, 2, a', [ft], lambda v: ({'a': (sgn(v['a'], n) >> 2) & m}, ft), A, 'arithmetic shift right')
         spec('shl2', 'bit.shl {n}, 2, a', [ft], lambda v: ({'a': (v['a'] << 2) & m}, ft), A, 'x[:n] <<= times')
+    for t in sorted({0, 1, n - 1, n} - {-1}):
+        if t > n:
+            continue
+        spec(f'shr_t{t}', f'bit.shr {{n}}, {t}, a', [ft], lambda v, t=t: ({'a': v['a'] >> t}, ft), A, 'x[:n] >>= times (times <= n)')
+        spec(f'shl_t{t}', f'bit.shl {{n}}, {t}, a', [ft], lambda v, t=t: ({'a': (v['a'] << t) & m}, ft), A, 'x[:n] <<= times (times <= n)')
+        if t < n:
+            spec(f'shra_t{t}', f'bit.shra {{n}}, {t}, a', [ft], lambda v, t=t: ({'a': (sgn(v['a'], n) >> t) & m}, ft), A, 'arithmetic shift right by times')
     spec('ror', 'bit.ror {n}, a', [ft], lambda v: ({'a': ((v['a'] >> 1) | ((v['a'] & 1) << (n - 1))) & m}, ft), A, 'rotate right')
     spec('rol', 'bit.rol {n}, a', [ft], lambda v: ({'a': ((v['a'] << 1) | (v['a'] >> (n - 1))) & m}, ft), A, 'rotate left')
     spec('inc', 'bit.inc {n}, a', [ft], lambda v: ({'a': (v['a'] + 1) & m}, ft), A, 'x[:n]++')
